@@ -60,6 +60,10 @@ def floors(tier):
         "run": 36 * k, "run:NONE": 1, "assertions:SIMPLE": 20 * k, "assertions:MUTATION_ANALYSIS": 3 * k, "assertions:NONE": 2 * k,
         "coverage-function:TestSuiteBranchCoverageFunction": 36 * k, "coverage-function:TestSuiteLineCoverageFunction": 8 * k,
         "asserted-statement": 300 * k, "statement-after": 300 * k, "suite-with-removed-test": 1,
+        "asserted-leaf-of-chain:len=3": 12, "asserted-leaf-of-chain:len=4": 12, "asserted-leaf-of-chain:len=5": 12,
+        "chain-coverage-redundant": 30, "chain-coverage-redundant:real": 3 * k, "asserted-leaf-of-chain:real": 6 * k,
+        **{f"chain-coverage-redundant:{s_}:{d_}": 3 for s_ in STRATEGIES for d_ in DIRECTIONS},
+        "directed:chain3": 8, "directed:chain4": 8, "directed:chain5": 8, "directed:chain-through-collections": 8, "directed:shared-prefix": 8,
         "directed:bare-unused": 8, "directed:dotted-only": 8, "directed:dependency": 8, "directed:unasserted": 8,
     })
     return {"evals": 1500 * k, "distinct": 36 * k, "classes": cl}
@@ -81,6 +85,13 @@ def directed_runs():
                     run["coverage_metrics"] = ["BRANCH", "LINE"]
                 runs.append(run)
                 i += 1
+    # long chains of unasserted builtin collections ending in an asserted int; branch-free, hence coverage-redundant
+    k = 0
+    for s in STRATEGIES:
+        for d in DIRECTIONS:
+            runs.append({"sut": "chains", "algorithm": ["DYNAMOSA", "MOSA", "DYNAMOSA"][k % 3], "seed": 500 + k, "iterations": 8,
+                         "assertion_generation": "SIMPLE", "strategy": s, "direction": d})
+            k += 1
     runs.append({"sut": "tri", "algorithm": "DYNAMOSA", "seed": 7, "iterations": 5, "assertion_generation": "SIMPLE", "strategy": "NONE",
                  "direction": "BACKWARD"})
     runs.append({"sut": "queue_", "algorithm": "MOSA", "seed": 8, "iterations": 5, "assertion_generation": "SIMPLE", "strategy": "CASE",
@@ -167,7 +178,7 @@ def evaluate(ctx, run, ev, tag):
         return
     decided = 0
     for name, before in cb.items():
-        if name.endswith(":timeouts"):
+        if name.endswith(":timeouts") or name == "name_errors":
             continue
         after = ca.get(name)
         if isinstance(before, str) or isinstance(after, str) or after is None:
@@ -193,6 +204,20 @@ def evaluate(ctx, run, ev, tag):
         cached = (ev.get("cached_after") or {}).get(name)
         if isinstance(cached, (int, float)) and not math.isclose(cached, after, rel_tol=1e-9, abs_tol=1e-12):
             ctx.anomaly(f"post-check-value-differs-from-fresh-recomputation:{strategy_cls}")
+    if isinstance(ca.get("name_errors"), int) and ca["name_errors"] > (cb.get("name_errors") or 0):
+        c = dict(case)
+        c.update({"name_errors_before": cb.get("name_errors"), "name_errors_after": ca["name_errors"],
+                  "tests_after": [[s_["code"] for s_ in a_["stmts"]] for a_ in ev["after"]][:6]})
+        ctx.witness(f"minimised-test-raises-NameError:{strategy_cls}",
+                    f"[{tag}] {ca['name_errors']} test(s) of the minimised suite raise NameError when executed ({cb.get('name_errors') or 0} before)", c)
+    for chn in ev.get("chains") or []:
+        kind = "directed" if "directed" in run else "real"
+        ctx.cls(f"asserted-leaf-of-chain:len={min(chn['len'], 5)}")
+        ctx.cls(f"asserted-leaf-of-chain:{kind}")
+        if chn.get("redundant"):
+            ctx.cls("chain-coverage-redundant")
+            ctx.cls(f"chain-coverage-redundant:{kind}")
+            ctx.cls(f"chain-coverage-redundant:{strategy_cls}:{direction}")
     pc = ev.get("post_check")
     if pc and not pc["same"]:
         # the pipeline's own post-check saw a different coverage after minimisation and (tries to) restore the suite
@@ -371,6 +396,19 @@ def directed_visitors(ctx):
                         ("var_2 = abs(var_1)", "var_2", [])],
         # an unasserted input of an asserted call
         "dependency": [("var_0 = -7", "var_0", []), ("var_1 = abs(var_0)", "var_1", [("var_1", 7)]), ("var_2 = abs(var_1)", "var_2", [("var_2", 7)])],
+        # the asserted leaf sits at the end of a chain of unasserted statements of length 3 / 4 / 5
+        "chain3": [("var_0 = 3", "var_0", []), ("var_1 = complex(var_0, 4)", "var_1", []), ("var_2 = abs(var_1)", "var_2", [("var_2", 5.0)])],
+        "chain4": [("var_0 = 3", "var_0", []), ("var_1 = complex(var_0, 4)", "var_1", []), ("var_2 = var_1.conjugate()", "var_2", []),
+                   ("var_3 = abs(var_2)", "var_3", [("var_3", 5.0)])],
+        "chain5": [("var_0 = 3", "var_0", []), ("var_1 = complex(var_0, 4)", "var_1", []), ("var_2 = var_1.conjugate()", "var_2", []),
+                   ("var_3 = var_2.conjugate()", "var_3", []), ("var_4 = abs(var_3)", "var_4", [("var_4", 5.0)]), ("var_5 = 9", "var_5", [])],
+        # the chain runs through collection literals
+        "chain-through-collections": [("var_0 = 2", "var_0", []), ("var_1 = [var_0]", "var_1", []), ("var_2 = len(var_1)", "var_2", []),
+                                      ("var_3 = [var_2, var_0]", "var_3", []), ("var_4 = sum(var_3)", "var_4", [("var_4", 3)])],
+        # two asserted leaves whose chains share a prefix
+        "shared-prefix": [("var_0 = 3", "var_0", []), ("var_1 = complex(var_0, 4)", "var_1", []), ("var_2 = var_1.conjugate()", "var_2", []),
+                          ("var_3 = abs(var_2)", "var_3", [("var_3", 5.0)]), ("var_4 = var_1.real", "var_4", []),
+                          ("var_5 = int(var_4)", "var_5", []), ("var_6 = abs(var_5)", "var_6", [("var_6", 3)])],
         # nothing asserted: everything may go
         "unasserted": [("var_0 = 1", "var_0", []), ("var_1 = abs(var_0)", "var_1", [])],
     }
@@ -415,5 +453,6 @@ def run_chunk(spec, ctx):
         return
 
     proj = sut_corpus.copy_to(ctx.scratch / "proj")
+    sut_corpus.copy_to(proj, names=sut_corpus.LONG_CHAINS)
     for i, run in enumerate(spec["runs"]):
         run_real(ctx, run, proj, i, env_extra=spec.get("env_extra"))
